@@ -45,7 +45,7 @@ CHECKS = {
    note="Colour disabled via fatih/color's NoColor; a real-run ErrExistPath (e.g. a root named '.') is not a name rejection; massive reports compared as exact block cover."),
  "C03": dict(level="exploration", design="DESIGN.md §4 C03",
    technique="runtime monitoring: relational monitor running each From-Root operation and its From-Markdown counterpart (and alias) on the same tree and comparing bytes, visit sequences, jail snapshots and error classes; pointer-identity monitor for Add",
-   text="Every single-root labeled tree up to 5/6 nodes, built by four Add orders with repeated Adds of existing names, and 3k/50k random trees with hostile names and large fan-out: text (5 branch tuples), JSON, YAML, TOML, walk, iterator (full and left early), mkdir, verify and dry-run through the From-Root family must equal the From-Markdown family's result for a spelling of the same tree; Add of an existing name must return the very same node; nil and non-root nodes must yield ErrNilNode/ErrNotRoot through all 12 entry points with zero bytes written and an unchanged jail; each alias is called on the tree its replacement has just processed and must equal it.",
+   text="Every single-root labeled tree up to 5/7 nodes, built by four Add orders with repeated Adds of existing names, and 3k/200k random trees with hostile names and large fan-out: text (5 branch tuples), JSON, YAML, TOML, walk, iterator (full and left early), mkdir, verify and dry-run through the From-Root family must equal the From-Markdown family's result for a spelling of the same tree; Add of an existing name must return the very same node; nil and non-root nodes must yield ErrNilNode/ErrNotRoot through all 12 entry points with zero bytes written and an unchanged jail; each alias is called on the tree its replacement has just processed and must equal it.",
    note="Massive is compared in C10. LF/CR/empty names only on the From-Root side (compared across From-Root operations and aliases). MkdirFromRoot+dry-run is compared with Output+dry-run (the CLI route), not with MkdirFromMarkdown+dry-run (known finding KF-C09-1)."),
  "C17": dict(level="exploration", design="DESIGN.md §4 C17",
    technique="runtime monitoring: differential monitor over two builds (default tags vs -tags tinywasm) of one driver fed the same case stream",
@@ -61,7 +61,7 @@ CHECKS = {
    note="Only interleavings actually produced are judged. Error texts are not compared. Known finding KF-C10-1: a massive mkdir that fails has already created other roots."),
  "C13": dict(level="exploration", design="DESIGN.md §4 C13",
    technique="runtime monitoring: client-boundary history recorder + porcupine linearizability checker against a sequential specification (the reference model), partitioned by tree; exhaustive small sequential histories, random histories, multi-goroutine histories with hand-off on the race-detector build",
-   text="Every sequential call history up to length 8 (quick) / 9 (thorough) over NewRoot/Add/operation on up to two live trees (254k / 2M histories back to back in one process), deep chains (depth 12-70), random histories of 20-200 calls, and histories split across 2-8 goroutines with hand-off and concurrent independent From-Markdown calls (text, massive text/JSON/YAML, JSON) are recorded and checked per tree with porcupine: every operation's result (text x 3 branch tuples, walk, iterator, JSON, dry-run, mkdir delta, verify, and the failing variants: aborted walk, abandoned iterator, failing writer, pre-existing root, failing verify) must be the model's for the tree as built so far. The concurrent workload also runs under the race detector.",
+   text="Every sequential call history up to length 8 (quick) / 10 (thorough) over NewRoot/Add/operation on up to two live trees (254k / ~20M histories back to back in one process), deep chains (depth 12-70), random histories of 20-200 calls, and histories split across 2-8 goroutines with hand-off and concurrent independent From-Markdown calls (text, massive text/JSON/YAML, JSON) are recorded and checked per tree with porcupine: every operation's result (text x 3 branch tuples, walk, iterator, JSON, dry-run, mkdir delta, verify, and the failing variants: aborted walk, abandoned iterator, failing writer, pre-existing root, failing verify) must be the model's for the tree as built so far. The concurrent workload also runs under the race detector.",
    note="No two goroutines touch the same tree at the same time. Only client-visible results are judged (no internal invariant such as index uniqueness)."),
  "C11": dict(level="fault_enumeration", design="DESIGN.md §4 C11",
    technique="runtime monitoring with fault and cancellation injection: goroutine deadlock/leak monitor (quiescence on runtime.Stack states), cancellation oracle, event-triggered cancellation and seeded delays through the verifPoint hooks, Go race detector on a second build of the same workload",
